@@ -559,6 +559,33 @@ fn run(op: &Value) -> Value {
                 Err(e) => json!({"ok": false, "calls": c, "cause": e.cause().to_string()}),
             }
         }
+        "client_gen_status" => {
+            // C18: the client emitted by the real generator against a scripted response (status, Content-Type, one body chunk)
+            use conjure_http::client::{Client, RequestBody, Service as ClientService};
+            use verif_service::gen::p::GsvcClient;
+            type Items = std::vec::IntoIter<Result<bytes::Bytes, conjure_error::Error>>;
+            struct Scripted(u16, Option<String>, Vec<u8>);
+            impl Client for Scripted {
+                type BodyWriter = Vec<u8>;
+                type ResponseBody = Items;
+                fn send(&self, _req: http::Request<RequestBody<'_, Vec<u8>>>) -> Result<http::Response<Items>, conjure_error::Error> {
+                    let items: Vec<Result<bytes::Bytes, conjure_error::Error>> = if self.2.is_empty() { vec![] } else { vec![Ok(bytes::Bytes::from(self.2.clone()))] };
+                    let mut r = http::Response::new(items.into_iter());
+                    *r.status_mut() = http::StatusCode::from_u16(self.0).unwrap();
+                    if let Some(ct) = &self.1 { r.headers_mut().insert(http::header::CONTENT_TYPE, http::HeaderValue::from_str(ct).unwrap()); }
+                    Ok(r)
+                }
+            }
+            let client = <GsvcClient<Scripted> as ClientService<Scripted>>::new(Scripted(op["status"].as_u64().unwrap_or(200) as u16, op["content_type"].as_str().map(|x| x.to_string()), hex(op["body"].as_str().unwrap_or(""))));
+            let tok = BearerToken::new("t").unwrap();
+            let r = match op["endpoint"].as_str().unwrap() {
+                "g1" => client.g1(&tok, 1, "q", 2).map(|_| Value::Null),
+                "g3" => client.g3("b").map(|v| Value::String(tohex(v.as_bytes()))),
+                "g4" => client.g4(&std::collections::BTreeSet::new(), None).map(|v| v.map(|x| Value::String(tohex(x.as_bytes()))).unwrap_or(Value::Null)),
+                _ => return json!({"error": "endpoint"}),
+            };
+            match r { Ok(v) => json!({"ok": true, "returned": v}), Err(e) => json!({"ok": false, "cause": e.cause().to_string()}) }
+        }
         "double_map_laws" => {
             // C14: DoubleOps for BTreeMap<i32, f64> on three concrete maps
             use conjure_object::private::DoubleOps;
